@@ -81,7 +81,7 @@ def bounds(tier):
                   "full option grid",
         "newick_multitree": "members N<=4,G=2 and N=3,G=3, forwards and backwards, reduced grid",
         "probes": "as quick plus sizes 9999,10000,10001",
-        "export": "members N<=3,G<=3 and N=4,G=1 x stretch {1,4} x time scale {int,quarter} x site placements "
+        "export": "members N<=3,G<=3, N=4,G=1 and (all nodes samples) N=4,G=2 x stretch {1,4} x time scale {int,quarter} x site placements "
                   "(<=2 mutations per site for N<=3,G<=2) x fasta x nexus grids",
         "all_trees": "every tree of tskit.all_trees(n), n<=6, x 7 scales x flags{leaves,all} x medium grid",
     }
@@ -1035,7 +1035,7 @@ def export_inputs(m, spec):
 # shards
 # --------------------------------------------------------------------------------------
 def _split(specs, part, b, per, **extra):
-    cnt = U.count_members(b["N"], b["G"], b.get("times", "id"))
+    cnt = U.count_members(b["N"], b["G"], b.get("times", "id"), b.get("flags", "all"))
     n = max(1, -(-cnt // per))
     for k in range(n):
         specs.append(dict(part=part, b=b, k=k, n=n, **extra))
@@ -1103,6 +1103,7 @@ def shards(tier, seed):
         _split(specs, "ex", dict(N=3, G=2, times="id"), 2, variants=v[:2], max_muts=2)
         _split(specs, "ex", dict(N=3, G=3, times="id"), 12, variants=v[:2], max_muts=1)
         _split(specs, "ex", dict(N=4, G=1, times="id"), 6, variants=v[:2], max_muts=1)
+        _split(specs, "ex", dict(N=4, G=2, times="id", flags="allsamples"), 6, variants=[(4, "int")], max_muts=1)
         _split(specs, "ex", dict(N=3, G=2, times="id", grid="frac"), 100, variants=[(1, "int")], max_muts=1)
     return specs
 
